@@ -1,8 +1,15 @@
 package props
 
 import (
+	"sync"
+	"time"
+
+	"github.com/kubewharf/kubebrain/pkg/backend"
+
 	"verif/internal/harness"
 )
+
+var c04Once sync.Once
 
 // C01, C02, C04 share the concurrent client workload of conc.go; each has its own oracle and its
 // own case mix.
@@ -31,6 +38,12 @@ func concCase(c *harness.Case, forProp string) concCfg {
 		cfg.faultPct = 8
 		cfg.futurePct = 4
 		cfg.maxDelayUs = []int{50, 200, 500}[r.Intn(3)]
+		if c.Index%4 == 2 {
+			// unknown outcomes (and, by chance, faults on the repair writes of the retry loop) in the mix
+			cfg.uncertainPct = 8
+			cfg.faultPct = 20
+			cfg.readers = 1
+		}
 	}
 	return cfg
 }
@@ -123,7 +136,7 @@ func init() {
 	Registry["C04"] = &Prop{
 		Plan: func(tier string) Plan {
 			return Plan{Level: "exploration", NCases: pick(tier, 160, 4000), Batch: 8, CaseTimeout: 90,
-				Rule: "concurrent workload with delayed commits (0-5 ms, so later allocations finish first), 8% definite storage errors injected at the engine boundary, 4% far-future expected revisions, 2 concurrent List readers; every 8th case drives the same through etcd Txn with negative mod revisions. " +
+				Rule: "concurrent workload with delayed commits (0-5 ms, so later allocations finish first), 8% definite storage errors injected at the engine boundary (every 4th case also 4% unknown outcomes, which makes the async retry loop and faults on its repair writes part of the schedule), 4% far-future expected revisions, 2 concurrent List readers; every 8th case drives the same through etcd Txn with negative mod revisions. " +
 					"monitors: (1) read revision < r at the instant the engine answered r's batch, (2) every dealt revision deposited exactly once at quiescence (notify hook), (3) every concurrent List equals the reference snapshot at its header revision, (4) a final probe write becomes listable. " +
 					"non-trivial = >=1 commit finished out of allocation order AND >=1 failed condition AND (>=1 injected storage error OR >=1 rejected future/negative expectation); distinct by outcome vector",
 				Assumptions: []string{"storage errors are injected by a wrapper at the storage.KvStorage boundary; real TiKV network faults are not reachable",
@@ -141,6 +154,7 @@ func init() {
 				runC04Etcd(c)
 				return
 			}
+			c04Once.Do(func() { backend.VerifSetRetryIntervals(30*time.Millisecond, 10*time.Millisecond) })
 			cr := newConcRun(c, concCase(c, "C04"))
 			if cr == nil {
 				return
